@@ -25,7 +25,19 @@ T0 = 1_700_000_000 * 10**9
 HORIZON = 100 * MIN
 SCEN_SALT = "otel2puml-verif-scen-v1"
 LARGE_BASE = 100_000     # scenario indices >= LARGE_BASE: large-scale family
+MANY_FROM = 400
 MIXED_BASE = 200_000     # scenario indices >= MIXED_BASE: combined fault kinds
+# scenario indices >= LATE_BASE: a combined-fault scenario re-cut into a
+# history of processes in which the *last* (cleaning) process only ingests
+# the late part of the capture: its window is [its own min start + buffer,
+# its own max end - buffer], so traces stored by earlier processes lie
+# outside it even with time_buffer 0
+LATE_BASE = 300_000
+# scenario indices >= GROW_BASE: a history of two *pipeline* processes (each
+# ingests, cleans and selects unique graphs) in which spans are delivered late:
+# traces that were complete trees in the first run receive further descendant
+# spans in the second run, so their shape changes between the runs
+GROW_BASE = 400_000
 
 
 def preload():
@@ -47,6 +59,11 @@ def gen_scenario(prop: str, idx: int) -> dict:
     # call trees) - thresholds such as 999 / 1000 bound variables or rows per
     # page are invisible to the small scenarios
     large = LARGE_BASE <= idx < MIXED_BASE
+    # LARGE_BASE + MANY_FROM on: instead of a few dozen wide traces, more
+    # than a thousand small ones (more candidate roots than one page of
+    # 999 / 1000 rows), most of one shape and a few shapes carried by a
+    # single trace somewhere in the store
+    many = LARGE_BASE + MANY_FROM <= idx < MIXED_BASE
     # indices from MIXED_BASE on: fault kinds combine inside one trace (a
     # trace with a lost parent or outside the window that also carries
     # several workflow names)
@@ -69,7 +86,7 @@ def gen_scenario(prop: str, idx: int) -> dict:
 
     def rand_shape(depth=0):
         t = rng.choice(labels)
-        if large:
+        if large and not many:
             kids = ([] if depth >= 2 else
                     [rand_shape(depth + 1)
                      for _ in range(rng.choice([0, 2, 5, 9, 12]))])
@@ -115,11 +132,18 @@ def gen_scenario(prop: str, idx: int) -> dict:
     n_traces = rng.randint(1, 9 if focus in ("C09", "C12") else 7)
     if large:
         n_traces = rng.randint(25, 45)
+    if many:
+        n_traces = rng.randint(1150, 2300)
+        shapes += [rand_shape() for _ in range(rng.randint(2, 8))]
     for k in range(n_traces):
         tid = f"t{k}"
         name = rng.choice(names)
         shape = rng.choice(shapes)
         kind = rng.choice(kinds)
+        if many:
+            shape = shapes[0] if rng.random() < 0.97 else rng.choice(shapes)
+            if rng.random() < 0.9:
+                kind = "ok"
         if kind == "outside" and buf == 0:
             kind = "ok"
         also_bad = mixed and kind != "badname" and rng.random() < 0.5
@@ -231,6 +255,9 @@ def gen_scenario(prop: str, idx: int) -> dict:
         bs = rng.choice([1, 2, 3, 4, 5, 7, 10**6])
     if large:
         bs = rng.choice([500, 999, 1000, 1000, 1001, 1024, 2500, 10**6])
+    if many:
+        bs = rng.choice([999, 1000, 1001, 2500, 2500, 5000, 5000, 10**6,
+                         10**6])
     later_process_dups = []
     for _ in range(n_dup):
         src_i = rng.randrange(len(stream))
@@ -307,7 +334,107 @@ def gen_scenario(prop: str, idx: int) -> dict:
     scen["stream_filter"] = filt
     scen["filter_names"] = sorted(rng.sample(names, rng.randint(1,
                                                                 len(names))))
+    if focus == "C12" and idx >= MIXED_BASE + 1000:
+        # cancellation fault: a consumer opens a stream, reads a little and
+        # abandons it (generator closed) right before one of the checked
+        # streams of the same holder; "same" = the very filter of the checked
+        # stream (a retry)
+        ar = random.Random(core.derive(SCEN_SALT, prop, idx, "abandon"))
+        scen["abandon"] = [
+            {"before": tgt,
+             "with": ar.choice(["none", "unique", "filter", "names", "same",
+                                "same"]),
+             "jobs": ar.choice([0, 1, 1, 2, 5])}
+            for tgt in ("stream", "stream_unique", "stream_filter",
+                        "stream_names", "pv") if ar.random() < 0.5]
+    if idx >= GROW_BASE:
+        _grow(scen, random.Random(core.derive(SCEN_SALT, prop, idx, "grow")))
+    elif idx >= LATE_BASE:
+        _late_window(scen, random.Random(core.derive(SCEN_SALT, prop, idx,
+                                                     "late")),
+                     T0_, HORIZON_, anchor_name)
     return scen
+
+
+def _grow(scen: dict, rng) -> None:
+    flat = [s for p in scen["processes"] for s in p["deliver"]]
+    first: dict = {}
+    for s in flat:
+        first.setdefault(s["id"], s)
+    parents = {s["parent"] for s in first.values() if s["parent"]}
+    by_trace: dict = {}
+    for s in first.values():
+        by_trace.setdefault(s["trace"], []).append(s)
+    late_ids = set()
+    moved = set()
+    for t, sp in sorted(by_trace.items()):
+        if t == "anchor":
+            continue
+        leaves = [x["id"] for x in sp if x["id"] not in parents
+                  and x["parent"]]
+        r = rng.random()
+        if leaves and r < 0.6:
+            late_ids.update(rng.sample(leaves, rng.randint(
+                1, min(2, len(leaves)))))
+        elif r > 0.85:
+            moved.add(t)          # a whole trace that only arrives in run 2
+    p0 = [s for s in flat if s["id"] not in late_ids
+          and s["trace"] not in moved]
+    p1 = [dict(s, dup=True) for s in flat if s["trace"] == "anchor"
+          and not s.get("dup")]
+    p1 += [s for s in flat if s["id"] in late_ids or s["trace"] in moved]
+    scen["processes"] = [{"deliver": p0, "pipeline": True},
+                         {"deliver": p1}]
+    scen["grow"] = {"late_spans": sorted(late_ids), "moved": sorted(moved)}
+
+
+def _late_window(scen: dict, rng, t0: int, horizon: int, name: str) -> None:
+    """Re-cut the deliveries of a scenario: earlier processes ingest the
+    anchor and the early traces, the last process ingests a second anchor
+    [S, end of capture] (always in its own window, so the window of the last
+    process is the same whichever traces are later removed) and only traces
+    that lie wholly inside [S, end]."""
+    flat = [s for p in scen["processes"] for s in p["deliver"]]
+    by_trace: dict = {}
+    for s in flat:
+        by_trace.setdefault(s["trace"], []).append(s)
+    starts = sorted(min(x["st"] for x in sp)
+                    for t, sp in by_trace.items() if t != "anchor")
+    end = t0 + horizon
+    if starts:
+        split = starts[len(starts) // 2] - rng.choice([0, 1, 1000])
+    else:
+        split = t0 + horizon // 2
+    split = max(t0 + 1, min(split, end - 30 * MIN))
+    late = {t for t, sp in by_trace.items() if t != "anchor" and all(
+        split <= x["st"] <= end and split <= x["en"] <= end for x in sp)}
+    # some late traces are nevertheless ingested by an earlier process
+    for t in sorted(late):
+        if rng.random() < 0.25:
+            late.discard(t)
+    anchor2 = [
+        dict(id="anchor2-r", trace="anchor2", type="R", parent=None,
+             st=split, en=end, name=name, app="app"),
+        dict(id="anchor2-c", trace="anchor2", type="X", parent="anchor2-r",
+             st=split + (end - split) // 2,
+             en=split + (end - split) // 2 + 1000, name=name, app="app")]
+    last = [s for s in flat if s["trace"] in late]
+    for k, a in enumerate(anchor2):
+        last.insert(min(len(last), rng.randrange(len(last) + 1) + k), a)
+    if last.index(anchor2[0]) > last.index(anchor2[1]) and \
+            scen.get("mode") == "inorder":
+        i, j = last.index(anchor2[0]), last.index(anchor2[1])
+        last[i], last[j] = last[j], last[i]
+    early = [s for s in flat if s["trace"] not in late]
+    n_early = rng.choice([1, 1, 2])
+    if n_early == 2 and len(early) > 1:
+        c = rng.randint(1, len(early) - 1)
+        parts = [early[:c], early[c:]]
+    else:
+        parts = [early]
+    scen["processes"] = [{"deliver": p} for p in parts] + [{"deliver": last}]
+    scen["kinds"] = list(scen.get("kinds", [])) + ["anchor2"]
+    scen["late_window"] = {"split": split, "late_traces": sorted(late)}
 
 
 # ---------------------------------------------------------------------------
@@ -509,12 +636,50 @@ def _proc(arg: dict) -> dict:
             out.append([name, js])
         return out
 
-    res["stream"] = consume(h.stream_data())
-    res["stream_unique"] = consume(h.stream_data(uq))
     flt = {k: set(v) for k, v in arg["stream_filter"].items()}
-    res["stream_filter"] = consume(h.stream_data(flt))
-    res["stream_names"] = consume(
-        h.stream_data(None, set(arg["filter_names"])))
+    fnames = set(arg["filter_names"])
+
+    def open_stream(kind):
+        if kind == "unique":
+            return h.stream_data(uq)
+        if kind == "filter":
+            return h.stream_data(flt)
+        if kind == "names":
+            return h.stream_data(None, fnames)
+        return h.stream_data()
+
+    same = {"stream": "none", "stream_unique": "unique",
+            "stream_filter": "filter", "stream_names": "names", "pv": "none"}
+
+    def abandon(target):
+        for op in arg.get("abandon") or []:
+            if op["before"] != target:
+                continue
+            kind = same[target] if op["with"] == "same" else op["with"]
+            g = open_stream(kind)
+            try:
+                for _name, jobs in g:
+                    left = op["jobs"]
+                    for job in jobs:
+                        if left <= 0:
+                            break
+                        list(job)
+                        left -= 1
+                    break
+            finally:
+                g.close()
+            probes["abandoned_streams"] = probes.get(
+                "abandoned_streams", 0) + 1
+
+    abandon("stream")
+    res["stream"] = consume(open_stream("none"))
+    abandon("stream_unique")
+    res["stream_unique"] = consume(open_stream("unique"))
+    abandon("stream_filter")
+    res["stream_filter"] = consume(open_stream("filter"))
+    abandon("stream_names")
+    res["stream_names"] = consume(open_stream("names"))
+    abandon("pv")
     pv = []
     for name, jobs in h.stream_data():
         for job in sequence_otel_job_id_streams(jobs):
@@ -532,10 +697,12 @@ def run_processes(scen: dict, db: str) -> list[dict]:
     for i, p in enumerate(scen["processes"]):
         arg = {"db": db, "batch_size": scen["batch_size"],
                "time_buffer": scen["time_buffer"], "deliver": p["deliver"],
-               "pipeline": i == n - 1 and scen.get("pipeline", True),
+               "pipeline": (i == n - 1 and scen.get("pipeline", True))
+               or bool(p.get("pipeline")),
                "crash": p.get("crash"),
                "stream_filter": scen.get("stream_filter", {}),
-               "filter_names": scen.get("filter_names", [])}
+               "filter_names": scen.get("filter_names", []),
+               "abandon": scen.get("abandon")}
         try:
             st, val = core.run_forked(_proc, arg, wall_limit=400)
         except core.ChildTimeout:
@@ -586,6 +753,16 @@ def evaluate(scen: dict, outs: list[dict]) -> dict:
                 ["link-lost" if exp - got else "link-extra",
                  f"process {i}: lost={sorted(exp - got)[:4]} "
                  f"extra={sorted(got - exp)[:4]}"])
+        if p.get("pipeline") and i < len(scen["processes"]) - 1 \
+                and "after_clean" in o:
+            # an earlier run that also cleaned: its removals and renamings
+            # are durable
+            keep0, _rem0 = m.clean(p["deliver"], scen["time_buffer"])
+            m.first = {s["id"]: s for sp in keep0.values() for s in sp}
+            if o["after_clean"]["nodes"] != m.nodes():
+                errs["C11"].append(["early-run-cleaning",
+                                    f"process {i}: store after cleaning "
+                                    "differs from the model"])
     last = outs[-1]
     if "after_clean" not in last:
         return {"errs": errs, "info": info}
@@ -737,7 +914,8 @@ def _child(unit: dict) -> dict:
                "shapes": ev["info"].get("shapes", {}),
                "same_shape_groups": ev["info"].get("same_shape_groups", 0),
                "probes": {k: sum(o.get("probes", {}).get(k, 0) for o in outs)
-                          for k in ("fallback", "root_pages", "commits")},
+                          for k in ("fallback", "root_pages", "commits",
+                                    "abandoned_streams")},
                "state_digest": core.digest(
                    [o.get("after_ingest") for o in outs]
                    + [outs[-1].get("after_clean")]),
